@@ -22,6 +22,11 @@ AFTER = {
     "C17-thread-start-32bit-wrap": "sparse filesystems with more than 2^32 clusters (1 thread vs 2,3,5,16)",
     "C19-l2-cache-partial-clear": "156 MiB block-mapped file on the sparse ext3 image: metadata in > 512 qcow2 L2 tables",
     "C11-full-htree-node-csum-tail": "base image with a 4500-entry directory compacted by e2fsck -fD while checksums were off (full interior htree node, every leaf with spare room) and a forced 'enable metadata_csum on a full htree node' sequence",
+    "C20-backup-search-bigalloc-stride": "bigalloc geometries and a restore variant with only the primary descriptors destroyed (e2fsck's own backup search with the superblock intact); found two genuine defects first (fixed: 029167eb, b5a730c1)",
+    "C19-qcow2-raw-skips-clusters-past-fs-size": "tiny filesystems filled to the last block, so that the qcow2 file is larger than the filesystem (found a genuine defect first, fixed: e83f2662)",
+    "C17-read-overwrites-concurrent-write": "part (C): threads sharing one cached channel, unique values, offline register check, hook-stretched miss window (found a genuine lost-write race first, fixed: fdd739d0; the seeded patch is kept ported onto that fix)",
+    "C14-journal-writer-escape-after-tag-csum": "pipeline through debugfs' journal writer (checksum v2/v3, blocks to escape, revoke) with an independent log walker recomputing every journal checksum",
+    "C05-rehash-casefold-compare-without-flag": "corpus image with the casefold feature and case-SENSITIVE single-block directories holding names that differ only in case",
     "C05-empty-xattr-value-collision": "corpus image with 128-byte inodes and empty-valued attributes in xattr blocks",
 }
 rows = []
